@@ -119,3 +119,16 @@ Fixpoint bind_keys_from (i : nat) (ph : list nat) (fmts : list bool) (params : l
       else rest
   end.
 Definition bind_keys := bind_keys_from 0.
+
+(** The shard selection of a session (QueryRouter.active_shard) under a sequence of
+    shard-selecting events: a key delivered by any path selects [part k]; SET SHARD v selects v
+    when it is in range and otherwise changes nothing; everything else leaves it alone. *)
+Inductive selop := SelKey (k : Z) | SelShard (v : N) | SelNone.
+Definition sel_step (part : Z -> N) (n : N) (cur : option N) (o : selop) : option N :=
+  match o with
+  | SelKey k => Some (part k)
+  | SelShard v => fst (set_shard cur v n)
+  | SelNone => cur
+  end.
+Definition sel_run (part : Z -> N) (n : N) (cur : option N) (ops : list selop) : option N :=
+  fold_left (sel_step part n) ops cur.
